@@ -43,6 +43,7 @@ type Loc struct {
 	SliceV Term
 	Elem   types.Type
 	Global *ssa.Global
+	Table  string
 }
 
 type Closure struct {
@@ -61,6 +62,8 @@ type Val struct {
 	Org string
 	Src *Loc
 	From *CallEvent // for a Seq value: the call that produced it
+	Idx  Term       // for an element of a constant function table: the index
+	Elems []Val     // for a slice built from a local array literal: its elements (Go-side)
 }
 
 type CallEvent struct {
@@ -74,6 +77,7 @@ type CallEvent struct {
 	Desc    string
 	Org     string
 	From    *CallEvent
+	IfaceName string
 }
 
 type deferRec struct {
@@ -106,6 +110,16 @@ type State struct {
 	guardedOutside []string
 	condIdx []int  // indices into pc that are branch conditions
 	pend    string // goal of the last obligation (its assumption is a branch condition)
+	epoch    string                  // id of the last heap havoc on this path
+	arrElems map[*Cell]map[int64]Val // Go-side view of local array literals (varargs)
+	resp    []RespEvent              // ghost HTTP response: header sets, status, body writes
+}
+
+type RespEvent struct {
+	Kind  string // "header", "status", "body", "bodycopy"
+	Key   string
+	KeyT  Term
+	Val   Term
 }
 
 type ownedRec struct {
@@ -133,6 +147,18 @@ func (st *State) clone() *State {
 		ghost:   make(map[string]Term, len(st.ghost)),
 		guardedOutside: append([]string(nil), st.guardedOutside...),
 		condIdx: st.condIdx[:len(st.condIdx):len(st.condIdx)],
+		resp:    st.resp[:len(st.resp):len(st.resp)],
+		epoch:   st.epoch,
+	}
+	if len(st.arrElems) > 0 {
+		n.arrElems = make(map[*Cell]map[int64]Val, len(st.arrElems))
+		for c, m := range st.arrElems {
+			m2 := make(map[int64]Val, len(m))
+			for k, v := range m {
+				m2[k] = v
+			}
+			n.arrElems[c] = m2
+		}
 	}
 	for k, v := range st.cells {
 		n.cells[k] = v
@@ -244,6 +270,15 @@ type Exec struct {
 	immutKeys map[string]bool
 	outerVals map[string]Val
 	specDepth int
+	retPos token.Pos
+	exitFrame *Frame
+	privateRefs []privateRef
+	epochN int
+}
+
+type privateRef struct {
+	Ref Term
+	T   types.Type
 }
 
 func (x *Exec) note(format string, a ...interface{}) {
@@ -292,6 +327,12 @@ func (x *Exec) heapGet(st *State, key, sort string) Term {
 		t = Term{name, sort}
 		x.entryHeap[key] = t
 	}
+	if st.epoch != "" && !((strings.HasPrefix(key, "G_") && x.L.immutableGlobal[key]) || x.immutComp(key)) {
+		// first touched after a havoc: its content is that havoc's, not the entry heap's
+		name := "Hh" + st.epoch + "_" + sanitize(key)
+		x.d.DeclareFun(name, fmt.Sprintf("(declare-const %s %s)", name, sort))
+		t = Term{name, sort}
+	}
 	st.heap[key] = t
 	return t
 }
@@ -314,6 +355,27 @@ func (x *Exec) mapComps(T *types.Map) (hasKey, hasSort, valKey, valSort string) 
 // havocHeap replaces every heap component by a fresh array (the effect of an
 // unknown callee).  Escaped cells are havocked too.
 func (x *Exec) havocHeap(st *State, why string) {
+	// objects declared private to the verified function keep their fields
+	type keep struct {
+		key string
+		ref Term
+		old Term
+	}
+	var keeps []keep
+	for _, pr := range x.privateRefs {
+		si := x.te.Struct(pr.T)
+		for i := range si.Acc {
+			key, sort := x.fieldComp(si, i)
+			keeps = append(keeps, keep{key, pr.Ref, Select(x.heapGet(st, key, sort), pr.Ref)})
+		}
+	}
+	defer func() {
+		for _, k := range keeps {
+			if cur, ok := st.heap[k.key]; ok {
+				st.assume(Eq(Select(cur, k.ref), k.old))
+			}
+		}
+	}()
 	for k, t := range st.heap {
 		if strings.HasPrefix(k, "G_") && x.L.immutableGlobal[k] {
 			continue
@@ -333,7 +395,8 @@ func (x *Exec) havocHeap(st *State, why string) {
 			st.heap[k] = x.d.Fresh("hv_"+k, t.Sort)
 		}
 	}
-	st.ghost["heapEpoch"] = x.d.Fresh("epoch", "Int")
+	x.epochN++
+	st.epoch = fmt.Sprintf("%d", x.epochN)
 	for c := range st.esc {
 		if v, ok := st.cells[c]; ok {
 			nv := x.freshVal(st, "esc_"+c.name, c.typ)
@@ -439,12 +502,23 @@ func (x *Exec) load(st *State, l *Loc, T types.Type) Val {
 		pv := x.load(st, l.Parent, nil)
 		return Val{T: Select(pv.T, l.I), Typ: T, Src: l}
 	case LSliceElem:
-		return Val{T: Select(sliceArr(l.SliceV), l.I), Typ: T, Src: l}
+		v := Val{T: Select(sliceArr(l.SliceV), l.I), Typ: T, Src: l}
+		if l.Table != "" {
+			v.Org = "tableelem:" + l.Table
+			v.Idx = l.I
+		}
+		return v
 	case LGlobal:
 		key := x.globalKey(l.Global)
 		t := x.heapGet(st, key, x.te.SortOf(T))
 		v := Val{T: t, Typ: T, Org: "global:" + l.Global.Pkg.Pkg.Name() + "." + l.Global.Name()}
 		x.loadFacts(st, v)
+		if tbl, ok := x.L.funcTables[key]; ok && x.L.immutableGlobal[key] {
+			v.Org = "table:" + key
+			n := IntLit(int64(len(tbl)))
+			st.assume(And(Eq(sliceLen(t), n), Eq(sliceCap(t), n), Not(sliceNil(t))))
+			x.funcsUsed["struct:function table "+l.Global.Name()+" read off the package initialiser (never reassigned)"] = true
+		}
 		return v
 	case LHeapCell:
 		if stt, ok := T.Underlying().(*types.Struct); ok && stt != nil {
@@ -499,6 +573,17 @@ func (x *Exec) store(st *State, l *Loc, v Val) {
 		pv := x.load(st, l.Parent, nil)
 		nv := Val{T: Store(pv.T, l.I, x.termOf(st, &v)), Typ: pv.Typ}
 		x.store(st, l.Parent, nv)
+		if l.Parent.Kind == LCell {
+			if k, ok := modelInt(l.I.S); ok {
+				if st.arrElems == nil {
+					st.arrElems = map[*Cell]map[int64]Val{}
+				}
+				if st.arrElems[l.Parent.Cell] == nil {
+					st.arrElems[l.Parent.Cell] = map[int64]Val{}
+				}
+				st.arrElems[l.Parent.Cell][k] = v
+			}
+		}
 	case LSliceElem:
 		if l.Parent == nil {
 			x.note("outside-subset: store to an element of a slice that is not held in a local or field (lost)")
@@ -798,6 +883,9 @@ func (x *Exec) runBlock(fr *Frame, st *State, b *ssa.BasicBlock, from *ssa.Basic
 			var rs []Val
 			for _, r := range in.Results {
 				rs = append(rs, x.value(fr, st, r))
+			}
+			if fr.isEntry {
+				x.exitFrame = fr
 			}
 			fr.onReturn(st, rs)
 			return
